@@ -13,7 +13,8 @@ Definition oqs_close (a b : list QV) : bool := all2 (opt_close tol tol) a b.
 Inductive iout :=
 | IElem (ident : option nat) (d : list QV)   (* an element: Some i = the pre-existing object i, None = a new object *)
 | ISc (v : QV)                               (* a scalar *)
-| IErr (e : err).
+| IErr (e : err)
+| IOther.                                    (* anything else (ndarray, tuple, ...): never matches the model *)
 
 Record case := {
   k_store : list ((nat * nat) * list QV);    (* the objects that exist before the call *)
